@@ -366,12 +366,11 @@ func (c *Conn) OpenUpstream(ctx context.Context, sessionID string, opts ...Upstr
 		sendDataPointsHooker: upconf.SendDataPointsHooker,
 		eventDispatcher:      newEventDispatcher(),
 
-		connState:               c.state,
-		explicitlyFlushCh:       make(chan (<-chan struct{})),
-		explicitlyFlushResultCh: make(chan error),
-		Config:                  upconf,
-		state:                   newStreamState(),
-		sendBuffer:              map[message.DataID]DataPoints{},
+		connState:         c.state,
+		explicitlyFlushCh: make(chan flushRequest),
+		Config:            upconf,
+		state:             newStreamState(),
+		sendBuffer:        map[message.DataID]DataPoints{},
 
 		upstreamChunkResultChs: map[uint32]chan *message.UpstreamChunkResult{},
 		receivedAck:            sync.NewCond(&sync.RWMutex{}),
